@@ -151,3 +151,29 @@ package statet
 // ---- the generated family: defining equations in terms of FlatMap and Pure --------------------
 
 //@ include internal/verifspec/statemonad.contracts
+//
+// Concat(start, tail...) = start, then every tail element through FlatMapConst, left to right; a failing
+// operand ends the chain: its failure and state are the result and no later operand is run (C02).
+// BOUNDED stand-in (the loop over the variadic tail is unrolled on 0..2 tail elements).
+//@ ghost
+//@ func specConcat3[S, A any](s0, s1, s2 fp.StateT[S, A], s S) verifspec.Pair[fp.Try[A], S] {
+//@ 	t0, c0 := s0(s)
+//@ 	if !t0.IsSuccess() {
+//@ 		return verifspec.P2(t0, c0)
+//@ 	}
+//@ 	t1, c1 := s1(c0)
+//@ 	if !t1.IsSuccess() {
+//@ 		return verifspec.P2(t1, c1)
+//@ 	}
+//@ 	return verifspec.P2(s2(c1))
+//@ }
+//@ end
+//@ lemma concatDef3[S, A any](s0, s1, s2 fp.StateT[S, A], s S)
+//@   prop C02 C17
+//@   option unroll
+//@   ensures EqT(verifspec.P2(Concat(s0)(s)), verifspec.P2(s0(s)))
+//@   tag noTail
+//@   ensures EqT(verifspec.P2(Concat(s0, s1, s2)(s)), verifspec.P2(FlatMapConst(FlatMapConst(s0, s1), s2)(s)))
+//@   tag foldOfFlatMapConst
+//@   ensures EqT(verifspec.P2(Concat(s0, s1, s2)(s)), specConcat3(s0, s1, s2, s))
+//@   tag firstFailureEndsTheChain
